@@ -1,0 +1,1 @@
+//! Hooks owned by property C09 (feature `verif-hooks`).
